@@ -807,6 +807,8 @@ func (h cachedHistogram) ValueBucket(
 	)
 
 	return reportSamplesFunc(func(value int64) {
+		// n.b. Work on a copy: the handle may be used by several goroutines.
+		m := m
 		m.Value.Count = value
 		rep.reportCopyMetric(m, size, bucket, bucketID)
 	})
@@ -838,6 +840,8 @@ func (h cachedHistogram) DurationBucket(
 	)
 
 	return reportSamplesFunc(func(value int64) {
+		// n.b. Work on a copy: the handle may be used by several goroutines.
+		m := m
 		m.Value.Count = value
 		rep.reportCopyMetric(m, size, bucket, bucketID)
 	})
